@@ -174,9 +174,29 @@ def pipe(harness_cmd, judge_args, env=None, timeout=3600, save_trace=None):
         src = h.stdout
     j = subprocess.Popen([JUDGE] + judge_args, stdin=src, stdout=subprocess.PIPE, stderr=subprocess.STDOUT, text=True)
     h.stdout.close()
-    out, _ = j.communicate(timeout=timeout)
+    # watchdog: a harness that stops making progress (an endless loop inside the crate) is killed; the judge then sees the end of
+    # the stream inside a call and attributes it to the op announced last
+    import threading
+    limit = float(os.environ.get('VERIF_STREAM_TIMEOUT', '0')) or (3000 if os.environ.get('VERIF_TIER') == 'thorough' else 180)
+    limit = min(limit, timeout)
+    killed = []
+
+    def _kill():
+        killed.append(True)
+        try:
+            h.kill()
+        except Exception:
+            pass
+    timer = threading.Timer(limit, _kill)
+    timer.start()
+    try:
+        out, _ = j.communicate(timeout=timeout + 60)
+    finally:
+        timer.cancel()
     herr = h.stderr.read().decode(errors='replace')
     hrc = h.wait()
+    if killed:
+        herr += f'\nWATCHDOG: harness killed after {limit:.0f} s without finishing'
     return out.splitlines(), hrc, j.returncode, herr
 
 
